@@ -499,7 +499,14 @@ def _replace_needs_successful_read(ctx):
         return best[1] if best else default
 
     # innermost functions first, so that a handler is judged in the smallest function that also holds the rename
+    PUB = ("os.replace", "os.rename", "shutil.move")
+    # only functions that (through at most two calls inside the module) can reach the rename need the expanded view
+    reach_pub = {q_.split(".")[-1] for q_, f_ in jm.functions() if any(call_name(c) in PUB for c in calls_in(f_))}
+    for _ in range(2):
+        reach_pub |= {q_.split(".")[-1] for q_, f_ in jm.functions() if any((call_name(c) or "").split(".")[-1] in reach_pub for c in calls_in(f_))}
     for q, fn0 in sorted(jm.functions(), key=lambda it: (it[1].end_lineno or 0) - it[1].lineno):
+        if q.split(".")[-1] not in reach_pub:
+            continue
         if not any(call_name(c) in ("os.replace", "os.rename", "shutil.move") for c in calls_in(fn0)):
             # the publish step may sit in a helper: look at the expanded view as well
             fn = flat(ctx, fn0, 2)
